@@ -1,8 +1,10 @@
 (** Correspondence runner for C10: one case = a history of saves, one lookup, and what the three REAL
     cassettes listed for it (ids replaced by the ordinal of the recording's first save in the history).
     The model is run on the same history and lookup; externals are replayed from the case: the day-folder
-    texts (strftime), the directory listing order (os.listdir), scripted shuffle / choice. *)
+    texts (strftime), the directory listing order (os.listdir), scripted shuffle / choice.  The fnmatch oracle
+    of the theorems is instantiated with Cassette.GlobClass.glob_fn (fnmatch.translate incl. character classes). *)
 From Playback Require Export Base.Str Cassette.Matcher Cassette.Window Cassette.Lookup.
+From Playback Require Import Cassette.GlobClass.
 From Coq Require Export QArith.
 Open Scope nat_scope.
 Open Scope list_scope.
@@ -102,20 +104,20 @@ Definition eff_filter (skip : option bool) (f : meta) : meta :=
   match skip with Some b => lookup_filter b f | None => f end.
 
 Definition model_mem (h : list rec) cat f limit (random : nat) skip : lres (list str) :=
-  mem_iter glob_simple (@List.rev str) (store_of mem_id h) cat (eff_filter skip f) limit (negb (Nat.eqb random 0)).
+  mem_iter glob_fn (@List.rev str) (store_of mem_id h) cat (eff_filter skip f) limit (negb (Nat.eqb random 0)).
 
 Definition model_file (h : list rec) (listdir : list nat) cat f limit skip : lres (list str) :=
   let dir := store_of file_name h in
   match listing_of h dir listdir with
   | Some listing =>
-      if Nat.eqb (length listing) (length dir) then file_iter glob_simple dir listing cat (eff_filter skip f) limit
+      if Nat.eqb (length listing) (length dir) then file_iter glob_fn dir listing cat (eff_filter skip f) limit
       else LRaises IndexError
   | None => LRaises IndexError
   end.
 
 Definition model_s3 (h : list rec) days kp cat f limit (random : nat) sched so eo now skip : lres (list str) :=
   let fmt := fmt_of days in
-  s3_iter glob_simple fmt enc_run
+  s3_iter glob_fn fmt enc_run
           (if Nat.eqb random 2 then @List.rev rec else (fun l => l)) (sched_of sched) kp
           (store_of (s3_key fmt kp) h) cat so eo now (eff_filter skip f) limit (negb (Nat.eqb random 0)).
 
